@@ -759,6 +759,10 @@ def check(model, rep, tier):
       'the symbols come from _get_block_vars; rule UNDEF undefined-bound proves '
       'they are modified by the block and neither global nor nonlocal'})
   rep.unit('new-binding store placeholders', nn)
+  rep.rule('SCOPE-MOVE', 'user expressions embedded in a generated lambda / def '
+           'keep their bindings in the user\'s scope', floor=4)
+  nm_ = rules_dup.scope_move(model, rep, csites)
+  rep.unit('user expressions placed in generated functions', nm_)
   rep.unit('dup-eval placeholders', na)
   rep.unit('dup-eval handlers', nb)
 
